@@ -1,7 +1,13 @@
 //! Multi-link dispatch of receiver feedback: the real shell function `process_connection_events`
 //! (cumulative ACKs to every link, SRTLA ACKs arrival-link-first then exactly one other holder, the
 //! global +1 per acknowledged packet, NAKs through attribute_nak).
-//! Decides the multi-link clauses of C02 and the window-evolution clause of C10.
+//! Written to decide the multi-link clauses of C02 and the window-evolution clause of C10.
+//!
+//! NOT REGISTERED: the harnesses compile and encode (with the verif-model cut of the tokio relay
+//! send), but CBMC's symbolic execution of the async fn through `kani::block_on` does not finish
+//! (> 25 min per harness; a minimal, almost fully concrete call did not finish symex in 7 min even
+//! with the handlers of the other arms and the RTT estimator stubbed, while a hand-written async
+//! fn doing the same work takes 35 s).  Kept for a future tool version; see DESIGN.md section 7.
 use std::mem::MaybeUninit;
 
 use srtla_core::connection::{SrtlaConnection, SrtlaIncoming};
@@ -11,6 +17,14 @@ use crate::shellutil::*;
 use crate::util::*;
 
 pub fn no_rtt_update(_: &mut srtla_core::connection::RttTracker, _: u64, _: u64) {}
+
+// Each dispatch harness decides one arm of process_connection_events; the handlers of the OTHER arms
+// (whose lists are empty in that harness, but whose code CBMC's symbolic execution would still walk
+// through at every loop unwinding) are cut off.  They are decided on their own in c02 / c05.
+pub fn no_srt_ack(_: &mut SrtlaConnection, _: i32, _: u64) {}
+pub fn no_attribute_nak(_: &mut [SrtlaConnection], _: &SequenceTracker, _: u32, _: u64) -> Option<usize> {
+    None
+}
 
 fn seq_pool() -> [i32; 4] {
     // four distinct 31-bit sequence numbers (a, b, x1, x2)
@@ -209,3 +223,4 @@ fn c10_window_evolution_two_acks() {
     core::mem::forget(conns);
     core::mem::forget(tracker);
 }
+
